@@ -581,6 +581,7 @@ def r3_masks(program, rep):
     OCC = ps[-1] if "assigned_bits" not in ps else "assigned_bits"
     ok = dom_ok = acc = False
     seen_mask = False
+    place_nodes, scan_loops = [], []
     for b_ in T.binds:
         if b_.var != OCC or b_.mode not in ("assign", "aug"):
             continue
@@ -597,10 +598,12 @@ def r3_masks(program, rep):
         if other[0] == "callv" and other[1] == ("attr", SELF,
                                                 "_assign_field"):
             acc = other[2][:1] == (cur,)
+            place_nodes.append(b_.node)
             continue
         mf = _mask_form(fl, other)
         if mf is not None and lp is not None:
             seen_mask = True
+            scan_loops.append(lp)
             F = [st for st in subterms(other) if st[0] == "attr" and
                  st[2] == "length"]
             ok = bool(F) and mf[0] == _poly(fl, F[0]) and \
@@ -630,6 +633,20 @@ def r3_masks(program, rep):
     rep.check(acc, "C08-R4", qual(fn), "each placed field's bits are "
               "accumulated into the occupancy passed to the next placement",
               construct="occupancy accumulation", node=fn)
+    if scan_loops and place_nodes:
+        # every placement - in the pass that only fixes lengths too - is
+        # made against the bits of the fields already laid out
+        heads = [T.cfg.loop_head[id(lp_)] for lp_ in scan_loops]
+        always = all(T.cfg.must_pass(T.cfg.entry, lambda n_: n_ in heads,
+                                     targets=[pn_]) for pn_ in place_nodes)
+        rep.check(always, "C08-R4", qual(fn), "the bits of the fields "
+                  "already laid out are collected before any field is "
+                  "placed, on every path", construct="occupancy scan "
+                  "unconditional", node=scan_loops[0],
+                  fail="fields are placed on a path that skips the scan of "
+                       "the fields already laid out: a field with a fixed "
+                       "position and automatic length can grow over a "
+                       "neighbour placed earlier")
     # __call__ value range
     fn = program.get(BF + ".__call__")
     T = Terms(fn)
@@ -1182,12 +1199,51 @@ def r6_own_tags(program, rep):
                    "the masks of those tags select unrelated fields")
 
 
+def r3_walks(program, rep):
+    """The two walks over the field tree each descend with their own
+    predicate: the fields *enabled* by a set of values are those of the
+    enabled children's enabled fields; the *potential* ones those of the
+    potential children's potential fields.  (get_mask / get_value take their
+    bits from the first walk, the layout its overlaps from the second.)"""
+    for name, children in (("enabled_fields", "_enabled_children"),
+                           ("potential_fields", "_potential_children")):
+        fn = program.get(BF + "._Tree." + name)
+        inst = qual(fn)
+        T = Terms(fn)
+        ps = formals(fn)
+        FV = ("param", ps[1])
+        src = [x for x in method_calls(T, [children])
+               if plain(x[2]) == SELF and [plain(a) for a in x[3]] == [FV]]
+        if len(src) != 1:
+            raise AnalysisError("_Tree.%s: the children it descends into "
+                                "are not self.%s(field_values)" % (
+                                    name, children))
+        rec = [x for x in method_calls(T, ["enabled_fields",
+                                           "potential_fields"])]
+        if not rec:
+            raise AnalysisError("_Tree.%s: no descent into the children "
+                                "found" % name)
+        bad = [x for x in rec if x[1].func.attr != name]
+        rep.check(not bad, "C08-R3", inst, "%s descends into the children "
+                  "with %s itself" % (name, name),
+                  construct="%s recursion" % name,
+                  node=(bad[0][1] if bad else fn),
+                  fail="%s continues below a child with %s(): fields that "
+                       "are %s there are reported as %s - the masks and "
+                       "values of a key include (or miss) bits of fields "
+                       "that are not (are) present" % (
+                           name, bad[0][1].func.attr if bad else "",
+                           "only potential" if name == "enabled_fields"
+                           else "enabled", name.split("_")[0]))
+
+
 def check(program, rep):
     program.module("rig.bitfield")
     rep.guard("C08-R1", r1_accept, program, rep)
     rep.guard(["C08-R1", "C08-R3", "C08-R4"], r1_scan, program, rep)
     rep.guard("C08-R2", r2_explicit, program, rep)
     rep.guard(["C08-R3", "C08-R4"], r3_masks, program, rep)
+    rep.guard("C08-R3", r3_walks, program, rep)
     rep.guard("C08-R4", r4_order, program, rep)
     rep.guard("C08-R4", r4_children, program, rep)
     rep.guard("C08-R5", r5_widths, program, rep)
